@@ -349,7 +349,8 @@ EXTRA_TEXT = {
            "two of them give one, at any depth and with positions (doc_eq_stored_partial, ctx_eq_doc_partial); the unrestricted statement is false of the code (d8_counterexample).",
     "C19": " The loader model includes rel=\"alternate\" links (Origin.alt, recursion bounded by maxHops = the repaired code's bound): the invariant, load_fresh (returned document is Allowed: current - "
            "directly or through the page's link -, fresh storable, embedded), only_storable_received, failure_not_returned hold for every hop count; alternate_loop_is_error (defect D19, fixed) and "
-           "alternate_page_reuses_target_document (known finding F9) are proved witnesses.",
+           "alternate_page_reuses_target_document (known finding F9) are proved witnesses. The target of an alternate link goes through the scheme dispatch again (Loader.Route, a parameter of "
+           "loadHTTP; all theorems hold for every dispatch): alternate_rejected_scheme, alternate_to_ipfs_node, alternate_routing_witness.",
     "C15": " Which properties are undefined is no longer told to the model: it is computed from the abstract document and its contexts (Ctx.undefinedProps: term lookup under the node's base context "
            "plus its type-scoped contexts, property-scoped contexts for values, the count taken over the whole tree), and safe_success_stores_every_path proves that after a safe-mode success every dotted path "
            "addressing something in the document - any depth, array positions included - has a stored key under the specification of expansion (Ctx.storedKey). Also driven: MerklizeJSONLD through the "
